@@ -115,11 +115,16 @@ func (t *loopTr) setupRecv() {
 	ast.Inspect(fd.Body, func(n ast.Node) bool {
 		switch x := n.(type) {
 		case *ast.SelectorExpr:
-			if f := t.fieldOf(x); f != nil {
+			if t.hashNewSel[x] != nil {
+				okUse[unparen(x.X).(*ast.Ident)] = true // c.f.New(): the field is not a parameter (loops_rec.go)
+			} else if f := t.fieldOf(x); f != nil {
 				used[f] = true
 				okUse[unparen(x.X).(*ast.Ident)] = true
 			}
 		case *ast.CallExpr:
+			if f := t.hashNewCall(x); f != nil {
+				t.hashNewSel[unparen(unparen(x.Fun).(*ast.SelectorExpr).X).(*ast.SelectorExpr)] = f
+			}
 			// c.m(…) with m a method translated earlier (or declared abstract): its fields are fields of this method too
 			if sig, _ := t.sigOf(x); sig != nil && sig.method {
 				okUse[unparen(unparen(x.Fun).(*ast.SelectorExpr).X).(*ast.Ident)] = true
@@ -160,6 +165,9 @@ func (t *loopTr) setupRecv() {
 // rejectSliceField: fields must be integers or arrays of integers (arrays are values); a slice-typed field could share
 // its backing array with another field, a parameter or a local, which the ownership discipline does not track.
 func (t *loopTr) rejectSliceField(f *types.Var) {
+	if isNamedType(f.Type(), "crypto", "Hash") {
+		t.fail(t.fd, "field %s of the receiver has type crypto.Hash: it may only be used as c.%s.New()", f.Name(), f.Name())
+	}
 	switch f.Type().Underlying().(type) {
 	case *types.Slice, *types.Pointer, *types.Interface:
 		t.fail(t.fd, "field %s of the receiver has type %s: only integers and arrays of integers are supported (a slice field could alias)", f.Name(), f.Type())
@@ -245,6 +253,9 @@ func (t *loopTr) scalarTarget(e ast.Expr) (types.Object, string, lkind) {
 // assignIndex renders `l = v` for an index expression l (the bounds check of l is registered by t.index).
 func (t *loopTr) assignIndex(s ast.Node, l *ast.IndexExpr, value func(cur string, ek lkind) (string, lkind)) binding {
 	a, i, ak, o := t.index(l)
+	if ak == kMarshs {
+		t.fail(s, "index assignment to a slice of encoding.BinaryMarshaler: such slices are read-only in the translated subset")
+	}
 	f := t.facts
 	name, local := t.vars[o]
 	switch {
@@ -378,6 +389,9 @@ func (t *loopTr) multiAssign(s *ast.AssignStmt) []binding {
 				continue
 			}
 			o, name, k := t.scalarTarget(l)
+			if k == kErrOpt && v.kind == kErr {
+				v.text, v.kind = "(Go.errOfPlain "+v.text+")", k // the plain error of MarshalBinary() in a function with mixed errors
+			}
 			if k != v.kind {
 				t.fail(s, "assignment of %s to %s", v.kind.lean(), k.lean())
 			}
@@ -392,6 +406,17 @@ func (t *loopTr) multiAssign(s *ast.AssignStmt) []binding {
 
 // tupleCall translates a call of a function of the package with several results (translated earlier, plain-valued).
 func (t *loopTr) tupleCall(x *ast.CallExpr) (string, []lkind) {
+	if d := t.marshalRecv(x); d != nil {
+		// the value of d IS the result of this call (see recHeaderText)
+		v, k := t.expr(d)
+		if k != kMarsh {
+			t.fail(x, "MarshalBinary() on %s", k.lean())
+		}
+		return v, []lkind{kBytes, kErr}
+	}
+	if o, _ := t.hashCall(x); o != nil {
+		t.fail(x, "the results of a method of a hash.Hash are not modelled: h.Write(…) is only supported as a statement of its own")
+	}
 	id, ok := unparen(x.Fun).(*ast.Ident)
 	if !ok {
 		t.fail(x, "unsupported call %s", t.p.src(x))
